@@ -106,29 +106,7 @@ def bool_setting_edges(cfg, du, env_name):
 LOOP_OK = re.compile(CLOSURE_OK.pattern + r"|std::iter::Iterator::next|std::iter::IntoIterator::into_iter|.*IntoIterator for .*>::into_iter|.* as std::iter::Iterator>::next|.* as std::iter::IntoIterator>::into_iter|core::str::<impl str>::split|core::slice::<impl \\[T\\]>::iter|std::vec::Vec::<T, A>::(iter|len)|std::iter::Iterator::(map|filter)")
 
 
-def _bool_sources(du, l, seen=None, depth=0):
-    """constant definitions reaching bool local l through copies: list of (block, True|False|None)"""
-    if seen is None:
-        seen = set()
-    if l in seen or depth > 8:
-        return []
-    seen.add(l)
-    out = []
-    for d in du.defs.get(l, []):
-        if d[0] != "assign":
-            out.append((d[1], None)); continue
-        rv = d[3]
-        if rv["k"] == "use":
-            o = rv["ops"][0]
-            if o.get("k") == "const" and isinstance(o.get("v"), bool):
-                out.append((d[1], o["v"]))
-            elif o.get("k") in ("copy", "move") and not o["p"]:
-                out += _bool_sources(du, o["l"], seen, depth + 1)
-            else:
-                out.append((d[1], None))
-        else:
-            out.append((d[1], None))
-    return out
+from .parse_common import bool_sources as _bool_sources
 
 
 def _loop_membership(F, fn, cfg, du, l):
